@@ -755,3 +755,19 @@ mutant('RB-C11-size-update-off-by-one', ['C11', 'C10'], ['RB|boundary|hpack::dec
 mutant('RB-C10-prefix-fit-off-by-one', ['C10'], ['C10.RB|boundary|hpack::encoder::encode_int_one_byte'],
        'the value 2^N-1 is encoded in one byte (RFC 7541 5.1 requires a continuation)',
        [('src/hpack/encoder.rs', 'value < (1 << prefix_bits) - 1', 'value <= (1 << prefix_bits) - 1')])
+
+# ---------------------------------------------------------------- amount census (RA): wrong-variable edits
+mutant('RA-C03-credit-payload-instead-of-flow-controlled', ['C03'], ['C03.RA|amount|streams::Inner::recv_data::{closure#0}|recv::Recv::release_connection_capacity'],
+       'a stream error after the charge credits back only the unpadded payload length',
+       [(S + 'streams.rs', '''                    .release_connection_capacity(sz as WindowSize, &mut None);
+            }
+            actions.reset_on_recv_stream_err''', '''                    .release_connection_capacity(payload_len as WindowSize, &mut None);
+            }
+            actions.reset_on_recv_stream_err''')])
+mutant('RA-C13-content-length-counts-padding', ['C13'], ['C13.RA|amount|recv::Recv::recv_data|stream::Stream::dec_content_length', 'C13.R4|data|amount'],
+       'content-length is decremented by the flow-controlled length (padding included)',
+       [(S + 'recv.rs', 'stream.dec_content_length(frame.payload().len())', 'stream.dec_content_length(frame.flow_controlled_len())')])
+mutant('RA-C16-reclaim-reserved-returns-all', ['C16'], ['C16.RA|amount|prioritize::Prioritize::reclaim_reserved_capacity'],
+       'reclaim_reserved_capacity hands back the capacity backing buffered DATA as well',
+       [(S + 'prioritize.rs', '''            let reserved =
+                stream.send_flow.available().as_size() - stream.buffered_send_data as WindowSize;''', '''            let reserved = stream.send_flow.available().as_size();''')])
